@@ -5,5 +5,5 @@ CONSTANTS
   Atomic = TRUE
   MaxCalls = 1000000
 CONSTRAINT Hwm
-INVARIANTS FAtMostOnce FExactlyOnce FOneWinner
+INVARIANTS NotDone FAtMostOnce FExactlyOnce FOneWinner
 POSTCONDITION Accepted
